@@ -640,17 +640,25 @@ class ClientTls(Client):
         except OSError as ex:
             if ex.errno in (ssl.SSL_ERROR_WANT_READ, ssl.SSL_ERROR_WANT_WRITE):
                 return False
-            elif ex.errno in (ssl.SSL_ERROR_EOF, ):
+            elif ex.errno in (ssl.SSL_ERROR_EOF,
+                              errno.ECONNABORTED,
+                              errno.ECONNRESET,
+                              errno.ECONNREFUSED,
+                              errno.ENETRESET,
+                              errno.ENETUNREACH,
+                              errno.EHOSTUNREACH,
+                              errno.ENETDOWN,
+                              errno.EHOSTDOWN,
+                              errno.ETIMEDOUT,
+                              errno.EPIPE):
+                # far side went away mid handshake so give up this attempt
+                # nicely. Next .connect reopens and tries again
                 self.close()
-                raise   # should give up here nicely
+                self.cutoff = True
+                return False
             else:
                 self.close()
                 raise
-        except OSError as ex:
-            self.close()
-            if ex.errno in (errno.ECONNABORTED, ):
-                raise  # should give up here nicely
-            raise
         except Exception as ex:
             self.close()
             raise
